@@ -222,9 +222,10 @@ def pairs_side(plan, sim):
                   "msg": f"{integration} reader accepted header physical={ph} logical={lt} names={plan['names']} "
                          f"prefixes={plan['prefixes']} datatypes={plan['datatypes']} version={plan['version']} and "
                          f"returned {items!r}"})
-    # writer side for the same point (the 4096 maximum is a limit of the reader only: the property says
-    # "tables larger than 4096 on read", so the writer is not judged for it)
-    if ph in (1, 2, 3) and defect != "big_table":
+    # writer side for the same point. Tables larger than 4096 are refused on read; a writer that accepts such a
+    # preset produces a stream that its own reader refuses, so the configuration must be refused on write too
+    # ("rejected on both sides rather than written or accepted").
+    if ph in (1, 2, 3):
         cfg = nodes.default_cfg(integration=integration, physical={1: "TRIPLES", 2: "QUADS", 3: "GRAPHS"}[ph],
                                 logical=lt, delimited=True, max_names=plan["names"],
                                 max_prefixes=plan["prefixes"], max_datatypes=plan["datatypes"], entry="frames_gen",
